@@ -11,19 +11,43 @@ import sys
 
 sys.path.insert(0, os.path.join(os.path.dirname(os.path.abspath(__file__)), "..", "_shared", "mcref"))
 import mclib  # noqa: E402
-from vlib.core import SplitMix  # noqa: E402
+from vlib.core import SplitMix, InfraError  # noqa: E402
 
 VERB = ["--log=mc_dfs.thres:verbose"]
 
 
-def classify(prog, symptom):
-    """symptom: 'rc' (non-zero exit), 'dup' (two equivalent executions), 'count' (fewer/more executions than classes)"""
+def rearmed_barrier(prog):
+    """some barrier is waited on more often than it expects participants: a second round exists (the registered
+    barrier finding is about the ASYNC_LOCK of a next round racing with an already granted WAIT)"""
+    secs = prog.split(" ; ")
+    exp = []
+    for t in secs[0].split():
+        if t.startswith("b=") and t[2:] != "-":
+            exp = [int(x) for x in t[2:].split(",")]
+    cnt = {}
+    for sec in secs[1:]:
+        for t in sec.split()[1:]:
+            if t[0] == "B":
+                cnt[int(t[1:])] = cnt.get(int(t[1:]), 0) + 1
+    return any(k < len(exp) and n > exp[k] for k, n in cnt.items())
+
+
+def classify(prog, symptom, rc=None):
+    """symptom: 'rc' (non-zero exit), 'dup' (two equivalent executions), 'count' (fewer/more executions than classes).
+    A key is returned only for the witness class of a registered finding; everything else (e.g. a program made of
+    semaphores and mutexes only with fewer executions than classes) is a plain violation."""
     f = mclib.features(prog)
     if symptom == "rc":
-        return "odpor-random-with-created-actor-spurious-crash" if ("X" in f["ops"] and f["nchild"] > 0) else None
+        if "X" in f["ops"] and f["nchild"] > 0:
+            return "odpor-random-with-created-actor-spurious-crash"
+        if "X" in f["ops"] and rc == 4:
+            return "odpor-random-spurious-crash"            # proposed (thorough tier): odpor executes a disabled transition
+        if "X" in f["ops"] and rc == 139:
+            return "odpor-random-unbounded-exploration"     # proposed (thorough tier): odpor never ends, stack overflow
+        return None
     if "X" in f["ops"]:
         return "odpor-random-redundant-executions"
-    if "B" in f["ops"] and symptom == "count":
+    if "B" in f["ops"] and symptom == "count" and rearmed_barrier(prog):
         return "odpor-barrier-fewer-executions-than-classes"
     if "t" in f["ops"]:
         return "odpor-commtest-classes-mismatch"
@@ -32,15 +56,165 @@ def classify(prog, symptom):
     return None
 
 
+# ------------------------------------------------------------------------------------------------ targeted generator
+# ODPOR keeps, per state, a wakeup tree of planned-but-unexplored branches next to the explored ones (the sleep set); a
+# race found deeper is reversed by inserting a sequence into the tree of the state before it, unless one of its
+# initials sleeps.  The two sets only differ in states with >= 2 pending siblings and a later race towards one of them:
+# that needs >= 3 actors and two different races rooted at the same state.  The programs of the shared generator are
+# mostly 2-actor ones; these classes build the >= 3-actor shapes on purpose (all drawn from SplitMix).
+
+def _w(rng, pairs):
+    """weighted choice among (weight, value)"""
+    tot = sum(w for w, _ in pairs)
+    k = rng.below(tot)
+    for w, v in pairs:
+        if k < w:
+            return v
+        k -= w
+    return pairs[-1][1]
+
+
+def gen_odpor_program(rng, klass=None):
+    """-> (program, class name).  3 (sometimes 4) actors, <= ~12 transitions in all so that the unreduced exploration
+    stays small.  Programs with a reachable deadlock are filtered afterwards by the reference explorer."""
+    klass = klass if klass is not None else rng.below(6)
+    nact = _w(rng, [(4, 3), (1, 4)])
+    hdr, statics = {}, []
+    if klass == 0:
+        # one semaphore: releasers, single/double acquirers, acquire-release pairs (the hand-counted 8-class shape
+        # `R | A A | R` with capacity 1 is one point of this class)
+        name = "sem-multi"
+        ns = _w(rng, [(3, 1), (1, 2)])
+        multi = [["A%d", "A%d"], ["A%d", "A%d"], ["A%d", "A%d"], ["A%d", "R%d", "A%d"], ["A%d", "A%d", "A%d"]]
+        giving = [["R%d"], ["R%d"], ["R%d"], ["R%d", "R%d"], ["A%d", "R%d"], ["R%d", "A%d"]]
+        other = giving + [["A%d"], ["A%d", "R%d"]] + multi[:2]
+        if rng.chance(3, 4):        # a multiple acquirer meets >= 2 actors that release (the >= 2 races of one state)
+            picks = [rng.choice(giving) for _ in range(nact)]
+            picks[rng.below(nact)] = rng.choice(multi)
+            if nact == 4 and rng.chance(1, 2):
+                free = [i for i in range(nact) if picks[i] not in multi]
+                picks[rng.choice(free)] = rng.choice(other)
+        else:
+            picks = [rng.choice(other) for _ in range(nact)]
+        budget = 11 if nact == 3 else 10
+        for pk in picks:
+            s = rng.below(ns)
+            statics.append([t % s for t in pk])
+        hdr["s"] = []
+        for k in range(ns):
+            need = sum(t == "A%d" % k for a in statics for t in a) - sum(t == "R%d" % k for a in statics for t in a)
+            hdr["s"].append(max(0, need) + _w(rng, [(3, 0), (1, 1)]))
+        _shrink(statics, budget)
+    elif klass == 1:
+        # mutex + semaphore: a race on the mutex and a race on the semaphore rooted at the same state
+        name = "mutex-sem"
+        hdr["m"] = 1
+        hdr["s"] = [_w(rng, [(2, 1), (1, 0), (1, 2)])]
+        bodies = [["L0", "R0", "U0"], ["A0", "A0"], ["L0", "U0", "R0"], ["R0"], ["A0", "L0", "U0"], ["T0", "R0"],
+                  ["L0", "U0"], ["A0", "R0"], ["R0", "L0", "U0"]]
+        for _ in range(nact):
+            statics.append(list(rng.choice(bodies)))
+        _shrink(statics, 11 if nact == 3 else 10)
+    elif klass == 2:
+        # one-round barrier (every actor arrives once) with mutex / semaphore traffic around it
+        name = "barrier-one-round"
+        hdr["b"] = [nact]
+        hdr["m"] = 1
+        hdr["s"] = [1]
+        pre = [[], [], ["R0"], ["L0", "U0"], ["T0"], ["A0"]]
+        post = [[], [], ["R0"], ["A0"], ["L0", "U0"], ["U0"]]
+        for _ in range(nact):
+            statics.append(list(rng.choice(pre)) + ["B0"] + list(rng.choice(post)))
+        _shrink(statics, 12 if nact == 3 else 11, keep="B")
+    elif klass == 3:
+        # two mutexes, three actors: critical sections on different / nested mutexes
+        name = "mutex-multi"
+        hdr["m"] = 2
+        bodies = [["L0", "U0"], ["L1", "U1"], ["L0", "U0", "L1", "U1"], ["L0", "L1", "U1", "U0"], ["T0", "U0"], ["T1"],
+                  ["L1", "U1", "L0", "U0"]]
+        for _ in range(nact):
+            statics.append(list(rng.choice(bodies)))
+        _shrink(statics, 11 if nact == 3 else 10)
+    elif klass == 4:
+        # mailbox analogue of class 0: several senders, a receiver that receives twice
+        name = "mbox-multi"
+        nx = _w(rng, [(3, 1), (1, 2)])
+        hdr["x"] = nx
+        v = 0
+        nrecv = 0
+        for i in range(nact):
+            k = _w(rng, [(3, "S"), (2, "GG"), (1, "G"), (1, "SS")])
+            ops = []
+            for ch in k:
+                x = rng.below(nx)
+                if ch == "S":
+                    v += 1
+                    ops.append("S%d.%d" % (x, v))
+                else:
+                    nrecv += 1
+                    ops.append("G%d" % x)
+            statics.append(ops)
+        _shrink(statics, 10)
+    else:
+        # semaphore + mailbox + mutex soup over three actors, no MC_random, no test
+        name = "mixed"
+        hdr["m"] = 1
+        hdr["s"] = [_w(rng, [(2, 1), (1, 0), (1, 2)])]
+        hdr["x"] = 1
+        v = 0
+        for i in range(nact):
+            ops = []
+            for _ in range(rng.range(1, 2)):
+                k = rng.below(6)
+                if k == 0:
+                    ops += ["L0", "U0"]
+                elif k == 1:
+                    ops += ["A0"]
+                elif k == 2:
+                    ops += ["R0"]
+                elif k == 3:
+                    v += 1
+                    ops += ["S0.%d" % v]
+                elif k == 4:
+                    ops += ["G0"]
+                else:
+                    ops += ["A0", "R0"]
+            statics.append(ops)
+        _shrink(statics, 11 if nact == 3 else 10)
+    statics = [a for a in statics if a]
+    return mclib._fmt(hdr, statics, []), name
+
+
+COST = {"L": 2, "A": 2, "B": 2, "S": 2, "G": 2, "W": 3}
+
+
+def _cost(statics):
+    return sum(COST.get(t[0], 1) for a in statics for t in a)
+
+
+def _shrink(statics, budget, keep=""):
+    """drop trailing ops of the longest actor until the number of transitions fits the budget"""
+    while _cost(statics) > budget:
+        cands = [a for a in statics if a and a[-1][0] not in keep]
+        if not cands:
+            break
+        max(cands, key=lambda a: sum(COST.get(t[0], 1) for t in a)).pop()
+
+
 def run(ctx):
-    ctx.cov["rule"] = ("programs of the C38 generator without reachable deadlock/assertion failure and with paths shorter "
-                       "than 100 characters; a case = one program (odpor run + unreduced run); non-trivial = distinct "
-                       "program with >= 2 classes")
+    ctx.cov["rule"] = ("programs without reachable deadlock/assertion failure and with paths shorter than 100 characters, from "
+                       "(a) the corpus, (b) the C38 generator, (c) the targeted generator of this check (>= 3 actors: several "
+                       "releasers + multiple acquirers of a semaphore, mutex+semaphore, one-round barrier with mutex/semaphore "
+                       "traffic, two mutexes, several senders + a double receiver, mixed); a case = one program (odpor run, "
+                       "+ unreduced run when the program has few interleavings, else the classes of the reference explorer); "
+                       "non-trivial = distinct program with >= 2 classes")
     ctx.assumptions += [
         "ODPOR's optimality (wakeup trees, sleep sets) is checked per program, not proved",
         "lean/SgVerif/McRef/Dep.lean is a hand transliteration of Transition::dispatch_depends for the kinds of the "
         "mini-language (C39 owns the generated table); the transitions of an execution are obtained by replaying the "
         "printed path in the reference LTS",
+        "for programs with many interleavings the classes are those of the reference explorer alone (it is compared with "
+        "the unreduced run of the real checker on the smaller programs, and in C38)",
         "MazurkiewiczTraces::are_equivalent is not called in-process (only its debug-optimality verdict is recorded)"]
     ctx.ensure_simgrid(["simgrid", "simgrid-mc"])
     ctx.lean_prove()
@@ -49,48 +223,97 @@ def run(ctx):
     if not (drv and interp):
         return
     quick = ctx.tier == "quick"
-    cap = 300 if quick else 2000
+    cap = 300 if quick else 2000           # interleavings of a program of the corpus / the shared generator
+    tcap = 800 if quick else 3000          # ... of the targeted generator (reference classes only above none_max)
+    none_max = 130 if quick else 400       # unreduced run of the real checker only below that many interleavings
+    n_generic, n_target = (8, 44) if quick else (100, 200)
+    n_dbg = 12 if quick else 10 ** 6       # second opinion (debug-optimality) on that many programs
     corpus = [l.strip() for l in open(os.path.join(ctx.pdir, "corpus.txt")) if l.strip() and not l.startswith("#")]
+    klass_of = {}
     if ctx.replay:
         progs = [json.load(open(ctx.replay))["case"]["program"]]
+        targeted = []
     else:
         rng = SplitMix(ctx.seed)
-        n = (60 if quick else 400) * (4 if ctx.broken else 1)
+        hard = 4 if ctx.broken else 1
+        n = (60 if quick else 400) * hard
         progs = corpus + [mclib.gen_program(rng.fork(i), big=not quick)[0] for i in range(n)]
-    refs = mclib.oracle(ctx, drv, progs, cap)
+        trng = rng.fork(1 << 20)
+        targeted = [gen_odpor_program(trng.fork(i)) for i in range(n_target * 5 * hard)]
+        n_target *= hard
+    allp = progs + [p for p, _ in targeted]
+    refs = mclib.oracle(ctx, drv, allp, max(cap, tcap))
     if refs is None:
         return
-    sel = [p for p, r in zip(progs, refs)
-           if r and not (r["capped"] or r["exh"] or r["crash"] or r["dl"] or r["af"]) and r["nexec"] <= cap]
-    sel = list(dict.fromkeys(sel))[:(14 if quick else 160)]
+    ref_of = {}
+    for p, r in zip(allp, refs):
+        ref_of.setdefault(p, r)
+
+    def fine(p, c):
+        r = ref_of.get(p)
+        return r and not (r["capped"] or r["exh"] or r["crash"] or r["dl"] or r["af"]) and r["nexec"] <= c
+
+    if ctx.replay:
+        sel = [p for p in progs if fine(p, max(cap, tcap))]
+    else:
+        sel = [p for p in corpus if fine(p, cap)]
+        gen_ok = [p for p in dict.fromkeys(progs[len(corpus):]) if fine(p, cap) and p not in sel]
+        sel += gen_ok[:n_generic]
+        # targeted programs: round-robin over the classes so that every class is present whatever the filter keeps
+        byk = {}
+        for p, k in targeted:
+            if fine(p, tcap) and ref_of[p]["nexec"] >= 3 and p not in sel and p not in klass_of:
+                klass_of[p] = k
+                byk.setdefault(k, []).append(p)
+        order = sorted(byk)
+        pick = []
+        while len(pick) < n_target and any(byk.values()):
+            for k in order:
+                if byk[k] and len(pick) < n_target:
+                    pick.append(byk[k].pop(0))
+        sel += pick
+    with_none = {p for p in sel if ref_of[p]["nexec"] <= none_max or p in corpus}
     jobs = []
     for i, p in enumerate(sel):
         jobs.append(((i, "odpor"), p, mclib.mc_flags("odpor", extra=VERB)))
-        jobs.append(((i, "none"), p, mclib.mc_flags("none", extra=VERB)))
-        jobs.append(((i, "dbg"), p, mclib.mc_flags("odpor", extra=["--cfg=model-check/debug-optimality:yes"])))
+        if p in with_none:
+            jobs.append(((i, "none"), p, mclib.mc_flags("none", extra=VERB)))
+        if i < n_dbg:
+            jobs.append(((i, "dbg"), p, mclib.mc_flags("odpor", extra=["--cfg=model-check/debug-optimality:yes"])))
     results = mclib.run_many(ctx, interp, jobs, timeout=40 if quick else 120)
     lines, meta = [], []
-    second = {"agree_ok": 0, "checker_complains": 0}
+    second = {"agree_ok": 0, "checker_complains": 0, "not_asked": 0}
     skipped = 0
+    dist = {}
     for i, p in enumerate(sel):
-        ro, rn, rd = results[(i, "odpor")], results[(i, "none")], results[(i, "dbg")]
-        if ro["timeout"] or rn["timeout"]:
+        ro, rn, rd = results[(i, "odpor")], results.get((i, "none")), results.get((i, "dbg"))
+        for r in (ro, rn):
+            # the dynamic loader could not even start the checker (libsimgrid.so being relinked by a concurrent build of
+            # the shared cache): says nothing about the property
+            if r and r["rc"] == 127 and "error while loading shared libraries" in r["text"]:
+                raise InfraError("simgrid-mc could not be loaded (twice): " + r["text"].strip()[-200:])
+        if ro["timeout"] or (rn and rn["timeout"]):
             skipped += 1
             continue
-        case = {"program": p, "rc_odpor": ro["rc"], "rc_none": rn["rc"]}
+        case = {"program": p, "rc_odpor": ro["rc"], "rc_none": rn["rc"] if rn else None,
+                "class": klass_of.get(p, "corpus" if p in corpus else "shared-generator"),
+                "interleavings": ref_of[p]["nexec"]}
         if ro["rc"] != 0:
             ctx.cov["evaluations"] += 1
             case["tail"] = ro["text"][-800:]
-            ctx.violation("odpor exits with %d on a program without reachable failure" % ro["rc"], case, key=classify(p, "rc"))
+            ctx.violation("odpor exits with %d on a program without reachable failure" % ro["rc"], case, key=classify(p, "rc", ro["rc"]))
             continue
         po = mclib.END_RE.findall(ro["text"])
-        pn = mclib.END_RE.findall(rn["text"])
-        if rn["rc"] != 0 or any(len(x) >= 100 for x in po + pn) or not pn:
+        pn = mclib.END_RE.findall(rn["text"]) if rn else []
+        if (rn and (rn["rc"] != 0 or not pn)) or any(len(x) >= 100 for x in po + pn):
             skipped += 1
             continue
-        complains = (not rd["timeout"]) and ("equivalent with an already explored one" in rd["text"] or rd["rc"] not in (0,))
-        case.update({"odpor_paths": po, "none_traces": len(pn), "debug_optimality_complains": complains})
-        lines.append("cls %d %s => odpor=%s none=%s" % (cap, p, ",".join(po) or "-", ",".join(pn) or "-"))
+        complains = None
+        if rd is not None and not rd["timeout"]:
+            complains = "equivalent with an already explored one" in rd["text"] or rd["rc"] not in (0,)
+        case.update({"odpor_paths": po, "none_traces": len(pn) if rn else None, "debug_optimality_complains": complains})
+        lines.append("cls %d %s => odpor=%s none=%s" % (max(cap, tcap), p, ",".join(po) or "-",
+                                                        (",".join(pn) or "-") if rn else "*"))
         meta.append(case)
     rc, verdicts, err = ctx.run_lines([drv], lines, timeout=1800)
     if rc != 0 or not verdicts or verdicts[-1] != "END %d" % len(lines):
@@ -99,16 +322,23 @@ def run(ctx):
     for case, l, v in zip(meta, lines, verdicts):
         ctx.cov["evaluations"] += 1
         case["verdict"] = v[:400]
+        d = dist.setdefault(case["class"], {"programs": 0, "nontrivial": 0, "with_unreduced_run": 0, "max_classes": 0})
+        d["programs"] += 1
+        d["with_unreduced_run"] += case["none_traces"] is not None
+        d["max_classes"] = max(d["max_classes"], len(case["odpor_paths"]))
         if len(case["odpor_paths"]) >= 2:
             ctx.cov["distinct_nontrivial"] += 1
+            d["nontrivial"] += 1
         if v == "ok":
             ctx.cov["traces_validated_against_impl"] += 1
-            second["checker_complains" if case["debug_optimality_complains"] else "agree_ok"] += 1
+            second["not_asked" if case["debug_optimality_complains"] is None else
+                   "checker_complains" if case["debug_optimality_complains"] else "agree_ok"] += 1
         elif v.startswith("MONFAIL"):
             ctx.violation("odpor is not optimal / not exact on this program: " + v[-160:], case, key=classify(case["program"], "dup" if "two are equivalent" in v else "count"))
         else:
             ctx.broken.append({"kind": "classes-differ-from-reference", "case": case})
-    ctx.cov["samples"] = [l[:300] for l in lines[:3]]
+    ctx.cov["samples"] = [l[:300] for l in lines[:3]] + [l[:300] for l in lines[len(corpus) + n_generic:][:3]]
     ctx.cov["programs_selected"] = len(sel)
+    ctx.cov["distribution"] = dist
     ctx.cov["skipped"] = skipped
     ctx.cov["debug_optimality_second_opinion"] = second
